@@ -22,6 +22,7 @@ func coreC17(tier string) []RunSpec {
 		}
 	}
 	out = append(out, RunSpec{Profile: "core:sigall-crossmint", Params: map[string]int{"scenario": 1, "fee": 0, "mints": 2}})
+	out = append(out, RunSpec{Profile: "core:sigall-crossmint-pending-again", Params: map[string]int{"scenario": 2, "fee": 0, "mints": 2}})
 	return out
 }
 
@@ -80,7 +81,24 @@ func runC17(rc *RunCtx) {
 	}
 	ww.CheckWallets("start")
 	if rc.P("scenario", 0) == 1 {
-		c17SigAllCrossMint(ww)
+		c17SigAllCrossMint(ww, 1)
+		rc.Nontrivial = true
+		return
+	}
+	if rc.P("scenario", 0) == 2 {
+		// the cross-mint payment stays in flight; the same token is then received again without
+		// swap-to-trusted; finally the payment succeeds
+		ww.W.LN.ForceNextPay = "pending"
+		c17SigAllCrossMint(ww, 32)
+		t := ww.Tokens[len(ww.Tokens)-1]
+		ww.op("w.receive p2pk sigall=true crossmint=false")
+		ww.W.WalletOp(t.To, "recv2", nil, func(wl *wallet.Wallet) {
+			tk, _ := cashu.DecodeToken(t.Str)
+			wl.Receive(tk, false)
+		})
+		ww.CheckWallets("step")
+		ww.Settle()
+		ww.CheckWallets("settled")
 		rc.Nontrivial = true
 		return
 	}
@@ -98,7 +116,7 @@ func runC17(rc *RunCtx) {
 
 // c17SigAllCrossMint: fixed scenario: a SIG_ALL P2PK token worth 1 sat issued at the sender's mint is
 // received with swap-to-trusted by a wallet whose trusted mint is another one.
-func c17SigAllCrossMint(ww *WW) {
+func c17SigAllCrossMint(ww *WW, amount uint64) {
 	ww.step = 0
 	from, to := ww.Wallets[1], ww.Wallets[0]
 	mint := mintNameOfURL(ww.node(from).Mint)
@@ -107,13 +125,13 @@ func c17SigAllCrossMint(ww *WW) {
 	var err error
 	ww.op("w.sendlocked htlc=false sigall=true")
 	ww.W.WalletOp(from, "lock", nil, func(wl *wallet.Wallet) {
-		proofs, err = wl.SendToPubkey(1, ww.mintURL(mint), toKey, &nut11.P2PKTags{Sigflag: nut11.SIGALL}, false)
+		proofs, err = wl.SendToPubkey(amount, ww.mintURL(mint), toKey, &nut11.P2PKTags{Sigflag: nut11.SIGALL}, false)
 	})
 	if err != nil {
 		return
 	}
 	s, _ := MakeToken(proofs, ww.mintURL(mint), false, false)
-	ww.Tokens = append(ww.Tokens, &OutToken{Str: s, Proofs: proofs, From: from, Mint: mint, Amount: 1, Kind: "p2pk", To: to})
+	ww.Tokens = append(ww.Tokens, &OutToken{Str: s, Proofs: proofs, From: from, Mint: mint, Amount: amount, Kind: "p2pk", To: to})
 	ww.CheckWallets("step")
 	ww.op("w.receive p2pk sigall=true crossmint=true")
 	ww.W.WalletOp(to, "recv", nil, func(wl *wallet.Wallet) {
